@@ -2,15 +2,15 @@
 # Regression of the checks against the whole corpus, in parallel, on scratch copies of /repo under /tmp:
 #   every seeded/<id>/patch.diff must be reported (exit 1) by the check of its own property,
 #   every neutral/<id>/patch.diff (behaviour-preserving refactoring) must leave all 19 checks quiet (exit 0).
-# usage: tools/regress.sh [ids...]   (default: everything under seeded/ and neutral/)
+# usage: SQV_CHECKS="C04 C10" tools/regress_subset.sh [ids...]   (only the named checks; own scratch directory)
 # Nothing here is registered in MANIFEST.json; evidence and caches of these runs go to /tmp and are removed.
 cd "$(dirname "$0")/.."
 V=$(pwd)
-W=/tmp/sqv_regress
+W=${SQV_REGRESS_DIR:-/tmp/sqv_regress_subset}
 rm -rf "${W:?}"; mkdir -p "$W"
 IDS="$@"
 [ -z "$IDS" ] && IDS="$(ls seeded) $(ls neutral)"
-CHECKS=$(python3 -c "import json;print(' '.join(c['property_id'] for c in json.load(open('MANIFEST.json'))['checks']))")
+CHECKS="${SQV_CHECKS:?set SQV_CHECKS to the checks to run}"
 one() {
   id=$1
   if [ -d $V/seeded/$id ]; then kind=seeded; else kind=neutral; fi
